@@ -253,12 +253,17 @@ package middleware
 //@   assert at return#1: result0 == nil && result1 != nil && depth >= 32 && calls("middleware.DebitRecursionWork") == 0
 //@   assert at return#2: result0 == nil && result1 != nil
 //@
-//@ # ---- C06 / C11: a handler-cancelled reply is built from the request (SetRcode: ID, question, opcode echoed), carries
-//@ # the request's own additional section, is written exactly once and stops the chain
+//@ # ---- C06 / C11: a handler-cancelled reply (BADVERS, BADCOOKIE, REFUSED, SERVFAIL ...) is built from the request
+//@ # (SetRcode: ID, question, opcode echoed), is written exactly once and stops the chain. "Client subnet ... and foreign
+//@ # options never reflected": it carries at most ONE additional record - an OPT built for this reply, not the request's
+//@ # own OPT object and not the request's additional section - whose only options are the COOKIE options of the request's
+//@ # OPT. Nothing else the client sent (subnet, unknown options, a second OPT record) comes back.
 //@ func (*Chain).CancelWithRcode
 //@   abstract
 //@   nosafety all pre
 //@   assert at call (*github.com/miekg/dns.Msg).SetRcode#1: arg1 == req && arg2 == rcode && req != nil
+//@   assert at store dns.Msg.Extra#1: len(value) == 1 && dyntype(value[0], *dns.OPT) && as(value[0], *dns.OPT) != lastret("(*github.com/miekg/dns.Msg).IsEdns0") && lastret("(*github.com/miekg/dns.Msg).IsEdns0") != nil
+//@   assert at append#1: len(src) == 1 && dyntype(src[0], *dns.EDNS0_COOKIE)
 //@   assert at call (middleware.ResponseWriter).WriteMsg#1: arg1 == lastret("(*github.com/miekg/dns.Msg).SetRcode") || arg1 != nil
 //@   assert at return: ch.count == 0 && calls("(middleware.ResponseWriter).WriteMsg") <= 1
 //@   assert at store middleware.Chain.count#2: value == 0 && calls("(middleware.ResponseWriter).WriteMsg") == 1
